@@ -18,6 +18,7 @@
 #include "Util/CompInfo.h"
 #include "LinAlg/SearchSpace.h"
 #include "LinAlg/RitzPairs.h"
+#include "Util/VerifHooks.h"
 
 namespace Spectra {
 
@@ -33,6 +34,9 @@ namespace Spectra {
 template <typename Derived, typename OpType>
 class JDSymEigsBase
 {
+#ifdef SPECTRA_VERIF
+    friend struct ::SpectraVerifAccess;
+#endif
 protected:
     using Index = Eigen::Index;
     using Scalar = typename OpType::Scalar;
